@@ -24,6 +24,11 @@ Reads
       finish() when the body ended without [DONE]; the loop creates one fresh collector per request and drains it
       after the stream.  Emitted as gen_pipe_feeds : obs_flags with the obligation gen_pipe_feeds_collector_ok
       (= OBS_BOTH, the value the theorems of Props/C16.v "from the body bytes" are proved for).
+      The `Err(errs) => ...` arm of CreateResponsePayload::new — what happens to the validator's messages before the gate
+      `if !req.payload.errors().is_empty()` counts them — is emitted as gen_errors_post : post_shape (PS_keep: the vector
+      as it is; PS_map: into_iter().map(f).collect() with f : String -> String and no other adaptor; PS_may_drop:
+      anything else) with the obligation gen_gate_errors_ok (shape_never_drops: the theorems
+      c16_gate_is_validator_verdict / c16_invalid_never_sent_whatever_the_messages are proved for these shapes).
 Emits coq/Gen/ToolLoopGen.v: gen_validator_carved : list string, gen_ok_validator : bool and the obligation
 gen_validator_ok (every carved field is one of tools / tool_choice and every construct was found), and gen_max_tool_calls : N, gen_ok_tool_loop : bool, gen_fixed : bool and the obligation
 gen_tool_loop_ok (the model's MAX_TOOL_CALLS and FIXED are the generated values and every construct was found).
@@ -263,8 +268,10 @@ def main():
           and re.search(r"\"\$ref\"\s*:\s*format!\(\"\{SPLIT_COMPONENTS_URI_PREFIX\}\{name\}\"\)", cs or "") is not None and "options" in (cs or "") and ".compile(&root_ref)" in (cs or ""),
           "compile_split_schema does not compile {$ref: <name>} over all unmodified split components")
     cr = rd("crates/rip-provider-openresponses/src/request/create_response.rs")
-    vneed(re.search(r"pub\s+fn\s+new\(body:\s*Value\)\s*->\s*Self\s*\{\s*let\s+errors\s*=\s*match\s+validate_create_response_body\(&body\)\s*\{\s*Ok\(_\)\s*=>\s*Vec::new\(\),\s*Err\(errs\)\s*=>\s*errs,\s*\};\s*Self\s*\{\s*body,\s*errors\s*\}\s*\}", cr) is not None,
-          "CreateResponsePayload::new does not take its errors from validate_create_response_body(&body)")
+    # `new`: errors = match validate_create_response_body(&body) { Ok(_) => Vec::new(), Err(errs) => <ARM>, }; Self { body, errors }
+    # — the arm itself (what happens to the validator's messages before the gate counts them) is read below (gate shape)
+    mnew = re.search(r"pub\s+fn\s+new\(body:\s*Value\)\s*->\s*Self\s*\{\s*let\s+errors\s*=\s*match\s+validate_create_response_body\(&body\)\s*\{\s*Ok\(_\)\s*=>\s*Vec::new\(\),\s*Err\(errs\)\s*=>\s*(.*?),?\s*\};\s*Self\s*\{\s*body,\s*errors\s*\}\s*\}", cr, flags=re.S)
+    vneed(mnew is not None, "CreateResponsePayload::new does not take its errors from validate_create_response_body(&body)")
     vneed(re.search(r"pub\s+fn\s+errors\(&self\)\s*->\s*&\[String\]\s*\{\s*&self\.errors\s*\}", cr) is not None, "CreateResponsePayload::errors is not `&self.errors`")
     vneed(re.search(r"pub\s+fn\s+body\(&self\)\s*->\s*&Value\s*\{\s*&self\.body\s*\}", cr) is not None, "CreateResponsePayload::body is not `&self.body`")
     pimpl = between(cr, "impl CreateResponsePayload {", "pub struct CreateResponseBuilder") or ""
@@ -272,6 +279,40 @@ def main():
           and re.search(r"pub\s+struct\s+CreateResponsePayload\s*\{\s*body:\s*Value,\s*errors:\s*Vec<String>,\s*\}", cr) is not None
           and "self.errors" not in pimpl.replace("&self.errors", "") and "mut self" not in pimpl,
           "CreateResponsePayload (private fields body, errors) is built or edited somewhere else than in new()")
+    # ---- the gate: what CreateResponsePayload::new does to the validator's messages before `errors().is_empty()` decides
+    gnotes, gok = [], True
+
+    def gneed(cond, what):
+        nonlocal gok
+        if not cond:
+            gok = False
+            gnotes.append(what)
+
+    arm = re.sub(r"\s+", "", mnew.group(1)) if mnew else None
+    droppers = ("filter", "flat_map", "flatten", "take", "skip", "step_by", "retain", "truncate", "dedup", "drain", "pop", "remove", "clear",
+                "split_off", "nth", "last", "next", "find", "scan", "map_while", "zip", "chunks", "windows", "?", "get(", "unwrap_or_default", "ok()")
+    if arm is None:
+        shape = "PS_may_drop"
+        gneed(False, "gate: the Err arm of CreateResponsePayload::new was not found")
+    elif arm == "errs":
+        shape = "PS_keep"
+    elif re.fullmatch(r"errs\.into_iter\(\)\.map\((?:[A-Za-z_][A-Za-z0-9_:]*|\|[a-z_]+\|[^|]*)\)\.collect(?:::<Vec<(?:_|String)>>)?\(\)", arm) and not any(d in arm for d in droppers):
+        # every message rewritten, none dropped — provided the function is a plain String -> String one
+        mf = re.fullmatch(r"errs\.into_iter\(\)\.map\(([A-Za-z_][A-Za-z0-9_]*)\)\.collect.*", arm)
+        shape = "PS_map"
+        if mf:
+            sig = re.search(r"fn\s+%s\s*\(\s*\w+\s*:\s*String\s*\)\s*->\s*String\s*\{" % re.escape(mf.group(1)), cr)
+            if sig is None:
+                shape = "PS_may_drop"
+                gnotes.append("gate: `%s` is not a `fn(String) -> String`" % mf.group(1))
+    else:
+        shape = "PS_may_drop"
+        gnotes.append("gate: the validator's messages pass through `%s` before the gate counts them: a message can vanish" % arm[:200])
+    # the gate itself: errors() is the stored vector, tested for emptiness, refusal returns before the only send
+    gneed(re.search(r"pub\s+fn\s+errors\(&self\)\s*->\s*&\[String\]\s*\{\s*&self\.errors\s*\}", cr) is not None, "gate: CreateResponsePayload::errors is not `&self.errors`")
+    gneed(st.count("req.payload.errors()") >= 1 and len(re.findall(r"if\s+!req\.payload\.errors\(\)\.is_empty\(\)\s*\{", st)) == 1, "gate: `if !req.payload.errors().is_empty() {` not found exactly once")
+    notes.extend(gnotes)
+
     # ---- the value limits of the input items the loop builds (Model.ToolLoop: CALL_ID_*, NAME_*, TEXT_MAX, name_char_ok, role_ok)
     lim = {}
     try:
@@ -314,7 +355,7 @@ def main():
     os.makedirs(a.out, exist_ok=True)
     with open(os.path.join(a.out, "ToolLoopGen.v"), "w") as f:
         f.write("(* GENERATED by tools/gen/tool_loop.py from crates/ripd/src/{session,provider_openresponses}.rs — do not edit *)\n")
-        f.write("From Coq Require Import String.\nFrom RipV Require Import Base.Prelude Model.ToolLoop.\n")
+        f.write("From Coq Require Import String.\nFrom RipV Require Import Base.Prelude Model.ToolLoop Model.ToolLoopGate.\n")
         for n in notes:
             f.write("(* note: %s *)\n" % n.replace("*)", "* )"))
         f.write("Definition gen_max_tool_calls : N := %d.\n" % (mx or 0))
@@ -355,11 +396,16 @@ def main():
         f.write("Definition gen_ok_pipe : bool := %s.\n" % ("true" if pok else "false"))
         f.write("Lemma gen_pipe_feeds_collector_ok : gen_ok_pipe && obs_flags_eqb gen_pipe_feeds OBS_BOTH = true.\n")
         f.write("Proof. vm_compute. reflexivity. Qed.\n")
+        f.write("(* the gate: what CreateResponsePayload::new does to the validator's messages before errors().is_empty() decides\n   (PS_keep: kept as they are; PS_map: each rewritten by a String -> String function; PS_may_drop: a message can vanish) *)\n")
+        f.write("Definition gen_errors_post : post_shape := %s.\n" % shape)
+        f.write("Definition gen_ok_gate : bool := %s.\n" % ("true" if gok else "false"))
+        f.write("Lemma gen_gate_errors_ok : gen_ok_gate && shape_never_drops gen_errors_post = true.\n")
+        f.write("Proof. vm_compute. reflexivity. Qed.\n")
         f.write("Lemma gen_validator_ok :\n  gen_ok_validator && forallb (fun f => existsb (String.eqb f) [\"tools\"%string; \"tool_choice\"%string]) gen_validator_carved = true.\n")
         f.write("Proof. vm_compute. reflexivity. Qed.\n")
     for n in notes:
         print("note:", n)
-    print("tool_loop: max=%s fixed=%s ok=%s validator_carved=%s validator_ok=%s pipe_feeds=%s pipe_ok=%s" % (mx, s16 and s19, ok, carved, vok, feeds, pok))
+    print("tool_loop: max=%s fixed=%s ok=%s validator_carved=%s validator_ok=%s pipe_feeds=%s pipe_ok=%s gate=%s gate_ok=%s" % (mx, s16 and s19, ok, carved, vok, feeds, pok, shape, gok))
     return 0
 
 
